@@ -443,6 +443,7 @@ package runtime
 //@   ensures m.hardLimits.Memory == 0 ==> m.usedResources.Memory == old(m.usedResources.Memory)
 //@   ensures m.usedResources.Memory <= old(m.usedResources.Memory)
 //@   ghost released += 1
+//@   ghost relbytes += memAmount
 
 //@ func (*runtimeContextManager).Due
 //@   prop C07
@@ -1699,3 +1700,18 @@ package runtime
 //@   modifies everything()
 //@   exits any
 //@   assert_before_call FormatFloat: arg1 == 'g' && arg2 == -1 && arg3 == 64
+
+// C06: compiling a chunk gives back exactly what was charged for its syntax tree
+// (by the parser) and for the IR constants (here), once each, whether the
+// compilation succeeds or fails: ghost(relbytes) sums the amounts released by
+// this function.  (A second release of the tree on the error path would credit
+// the context with memory it never held: failing loads would lower used.memory.)
+//@ func (*Runtime).compileLuaStat
+//@   prop C06
+//@   arith int
+//@   norte
+//@   nocover
+//@   requires r != nil && stat != nil
+//@   modifies everything()
+//@   exits any
+//@   ensures ghost(relbytes) == old(ghost(relbytes)) + 2 * mathint(statSize)
